@@ -226,17 +226,16 @@ func OverflowTexts(k Kind) []string {
 			out = append(out, new(big.Int).Lsh(big.NewInt(1), uint(k.Bits())).String(), // 2^bits: wraps to 0
 				new(big.Int).Add(new(big.Int).Lsh(big.NewInt(1), uint(k.Bits())), big.NewInt(44)).String(),
 				"300", "70000", "5000000000", "-200", "-40000", "-3000000000")
-			// keep only those really outside
-			var f []string
-			for _, s := range out {
-				v, _ := new(big.Int).SetString(s, 10)
-				if v.Cmp(lo) < 0 || v.Cmp(hi) > 0 {
-					f = append(f, s)
-				}
-			}
-			out = f
 		}
-		return out
+		// keep only those really outside
+		var f []string
+		for _, s := range out {
+			v, _ := new(big.Int).SetString(s, 10)
+			if v.Cmp(lo) < 0 || v.Cmp(hi) > 0 {
+				f = append(f, s)
+			}
+		}
+		return f
 	case k == Float32:
 		return []string{"1e39", "-1e39", "3.5e38", "1e400", "-1e400", "1e308"}
 	case k == Float64:
@@ -633,6 +632,10 @@ func (c *Case) genStructDocE(r *rand.Rand, t *Type, dst reflect.Value, doc map[s
 				st, fv = st.Elem, fv.Elem()
 			}
 			c.genStructDocE(r, st, fv, doc, path, depth, f.O.Optional)
+			if f.O.Optional && !anyKeyPresent(st, doc) {
+				// no key of the optional embedded struct is in the document: it counts as absent
+				dst.Field(i).Set(reflect.Zero(dst.Field(i).Type()))
+			}
 			continue
 		}
 		key := f.DocKey()
@@ -642,7 +645,6 @@ func (c *Case) genStructDocE(r *rand.Rand, t *Type, dst reflect.Value, doc map[s
 		if f.O.Env != "" && f.O.EnvVal != "" {
 			// env var set: it overrides the document
 			text := f.O.EnvVal
-			c.Env[f.O.Env] = text
 			fv.Set(mustParse(f.T.K, text))
 			if r.Intn(2) == 0 {
 				site.Present = true
@@ -659,7 +661,8 @@ func (c *Case) genStructDocE(r *rand.Rand, t *Type, dst reflect.Value, doc map[s
 		case f.O.Optional:
 			on = r.Intn(2) == 0
 		case f.O.HasDefault:
-			on = r.Intn(5) < 2
+			// inside an optional embedded struct the library wants all-or-nothing of the non-optional fields
+			on = optEmb || r.Intn(5) < 2
 		default:
 			on = true
 		}
@@ -676,6 +679,21 @@ func (c *Case) genStructDocE(r *rand.Rand, t *Type, dst reflect.Value, doc map[s
 // ValidCase draws a document that satisfies every declared constraint of the shape.
 func ValidCase(r *rand.Rand, s *Shape, conf, allStrings bool) *Case {
 	c := &Case{Shape: s, Doc: map[string]any{}, Expect: s.New(), Env: map[string]string{}, Conf: conf, AllStrings: allStrings}
+	var walk func(t *Type)
+	walk = func(t *Type) {
+		switch t.K {
+		case Ptr, Slice, Map:
+			walk(t.Elem)
+		case Struct:
+			for _, f := range t.Fields {
+				if f.O.Env != "" && f.O.EnvVal != "" {
+					c.Env[f.O.Env] = f.O.EnvVal
+				}
+				walk(f.T)
+			}
+		}
+	}
+	walk(s.Root)
 	c.genStructDoc(r, s.Root, c.Expect.Elem(), c.Doc, "", 0)
 	return c
 }
@@ -1147,3 +1165,75 @@ func variantValue(r *rand.Rand, t *Type, v any, mode string) any {
 }
 
 var _ = math.MaxInt8
+
+// YAMLExact reports whether every number literal of the tree denotes a value that a
+// YAML 1.1 reader (int64 / uint64 / float64 scalars) holds exactly, i.e. JSON and YAML
+// read the same number. Only such trees are fed to the YAML entry points.
+func YAMLExact(v any) bool {
+	switch x := v.(type) {
+	case json.Number:
+		s := string(x)
+		if _, err := strconv.ParseInt(s, 10, 64); err == nil {
+			return s != "-0"
+		}
+		if _, err := strconv.ParseUint(s, 10, 64); err == nil {
+			return true
+		}
+		f, err := strconv.ParseFloat(s, 64)
+		if err != nil || math.IsInf(f, 0) {
+			return false
+		}
+		r, ok := parseRat(s)
+		if !ok {
+			return false
+		}
+		fr := new(big.Rat)
+		if fr.SetFloat64(f) == nil {
+			return false
+		}
+		return fr.Cmp(r) == 0
+	case map[string]any:
+		for _, c := range x {
+			if !YAMLExact(c) {
+				return false
+			}
+		}
+	case []any:
+		for _, c := range x {
+			if !YAMLExact(c) {
+				return false
+			}
+		}
+	}
+	return true
+}
+
+// YAMLCanonical: YAMLExact and every integer-valued number is spelled as a plain decimal
+// integer (1e2 or 1.0 are integers to a YAML reader but floats to a JSON reader): the
+// spelling in which "the same content" is well defined for both.
+func YAMLCanonical(v any) bool {
+	switch x := v.(type) {
+	case json.Number:
+		s := string(x)
+		if !YAMLExact(x) {
+			return false
+		}
+		if r, ok := parseRat(s); ok && r.IsInt() {
+			return !strings.ContainsAny(s, ".eE")
+		}
+		return true
+	case map[string]any:
+		for _, c := range x {
+			if !YAMLCanonical(c) {
+				return false
+			}
+		}
+	case []any:
+		for _, c := range x {
+			if !YAMLCanonical(c) {
+				return false
+			}
+		}
+	}
+	return true
+}
